@@ -14,7 +14,7 @@ import numpy as np
 from graphslam.graph import Graph
 
 from . import graphs, simio
-from .core import EventLog, Result, fxm
+from .core import EventLog, Result, fxm, xf
 from .simopt import OptEngineBase, draw_config, finish_result, pick_event, pos_bucket
 from .world import World
 
@@ -216,7 +216,7 @@ class C13(OptEngineBase):
     PROBES = [
         "w_negative_vertex", "w_negative_measurement", "cross_terms", "huge_magnitude", "tiny_magnitude", "neg_id", "big_id",
         "crlf_platform", "enospc_fired", "error_at_close_fired", "short_write_fired", "short_read_split_crlf", "inexpressible_refused",
-        "cycle_ge_3", "export_raised", "import_raised", "export_again_checked", "angle_pi_stored", "params_table", "chi2_nonfinite",
+        "cycle_ge_3", "mutated_between_exports", "export_raised", "import_raised", "export_again_checked", "angle_pi_stored", "params_table", "chi2_nonfinite",
     ]
 
     def generate(self, rng, tier, index):
@@ -235,6 +235,12 @@ class C13(OptEngineBase):
             for c in range(cycles):
                 if c > 0 and meta["magnitude"] == "moderate" and rng.random() < 0.25:
                     ops.append({"op": "optimize", "max_iter": rng.randint(1, 3)})
+                if rng.random() < 0.3:
+                    # the same object is exported, changed by its owner, and exported again
+                    ops.append({"op": "export", "path": rng.choice(paths)})
+                    for _ in range(rng.randint(1, 2)):
+                        ops.append({"op": "mutate", "what": rng.choice(["information", "estimate", "vertex", "param"]), "k": rng.randrange(1000),
+                                    "scale": rng.choice([2.0, 0.5, 3.0, 1.0 + 2.0 ** -40])})
                 ops.append({"op": "export", "path": cur})
                 r = rng.random()
                 if r < 0.25:
@@ -316,6 +322,51 @@ class C13(OptEngineBase):
                     origin = graphs.spec_of_graph(g)
                     cycles_since_origin = 0
                     sig_ops.append("optimize")
+                    continue
+                if kind == "mutate":
+                    # the owner of the graph re-weights an edge, replaces a measurement, moves a vertex or edits an offset parameter
+                    what = op["what"]
+                    sc = float(op["scale"])
+                    done = False
+                    if what == "information" and g._edges:
+                        e = g._edges[op["k"] % len(g._edges)]
+                        e.information = np.array(e.information, dtype=np.float64) * sc
+                        done = True
+                    elif what == "estimate" and g._edges:
+                        e = g._edges[op["k"] % len(g._edges)]
+                        spec = graphs.pose_to_spec(e.estimate)
+                        vals = [xf(v) for v in spec["v"]]
+                        vals[0] = vals[0] * sc + 0.25
+                        e.estimate = graphs.make_pose(spec["t"], vals)
+                        done = True
+                    elif what == "vertex" and g._vertices:
+                        v = g._vertices[op["k"] % len(g._vertices)]
+                        spec = graphs.pose_to_spec(v.pose)
+                        vals = [xf(x) for x in spec["v"]]
+                        vals[1] = vals[1] * sc - 0.125
+                        v.pose = graphs.make_pose(spec["t"], vals)
+                        done = True
+                    elif what == "param" and getattr(g, "_g2o_params", None):
+                        # an offset parameter and the edges that use it change together (they share the pose object after an import)
+                        keys = [k for k in g._g2o_params if k[0] == "PARAMS_SE3OFFSET"]
+                        if keys:
+                            key = keys[op["k"] % len(keys)]
+                            par = g._g2o_params[key]
+                            spec = graphs.pose_to_spec(par.value)
+                            vals = [xf(x) for x in spec["v"]]
+                            vals[2] = vals[2] * sc + 0.5
+                            newp = graphs.make_pose("SE3", vals)
+                            par.value = newp
+                            for e in g._edges:
+                                if getattr(e, "offset_id", None) == key[1] and getattr(e, "offset", None) is not None and graphs.type_name(e.offset) == "SE3":
+                                    e.offset = newp
+                            done = True
+                    if done and not dry:
+                        res.probe("mutated_between_exports")
+                    origin = graphs.spec_of_graph(g)
+                    cycles_since_origin = 0
+                    sig_ops.append("mutate:" + what if done else "mutate:skip")
+                    log.note("mutate", [what, done])
                     continue
                 if kind in ("export", "export_again"):
                     before = graphs.spec_of_graph(g)
